@@ -7,6 +7,7 @@
   extensions (negative indices, `#`/`~`-prefixed tokens, integers beyond the index limit).
 -/
 import JP.Lemmas.Patch
+import JP.Lemmas.NegIndex
 namespace JP.Props.C05
 open JP JP.Pointer JP.Patch
 
@@ -89,6 +90,41 @@ theorem test_deep (a b : J) (h : a.eqv b = true) : Lemmas.sameShape a b = true :
 /-- `test` equality is reflexive on well-formed values (so `test` with the value found there passes). -/
 theorem test_refl (a : J) (h : a.wf = true) : a.eqv a = true := by
   exact Lemmas.eqv_refl a h
+
+/-! ### The library's negative index extension in patch targets, stated outright (RFC 6902 has no such index; the
+    refinement theorem above is about non-extension tokens) -/
+
+/-- `remove` at `-k` (1 ≤ k ≤ length) removes the element `length - k`. -/
+theorem negative_index_remove (xs : List J) (k : Nat) (hk : 1 ≤ k) (hl : k ≤ xs.length) :
+    applyOp (.arr xs) (.remove [.idx (-(k : Int))]) = .ok (.arr (xs.eraseIdx (xs.length - k))) := by
+  have hlt : xs.length - k < xs.length := by omega
+  have hg : getitem (.arr xs) (.idx (-(k : Int))) = .ok xs[xs.length - k] := by
+    simp [getitem, Lemmas.pyListGet_neg xs k hk, hl, List.getElem?_eq_getElem hlt]; rfl
+  simp [applyOp, applyRemove, target, resolveParent, resolveParts, hg, delArr, tokenInt, Lemmas.pyIndexPos_neg xs.length k hk hl,
+    writeBack, bind, Except.bind, pure, Except.pure]
+
+/-- `replace` at `-k` sets the element `length - k`. -/
+theorem negative_index_replace (xs : List J) (k : Nat) (v : J) (hk : 1 ≤ k) (hl : k ≤ xs.length) :
+    applyOp (.arr xs) (.replace [.idx (-(k : Int))] v) = .ok (.arr (xs.set (xs.length - k) v)) := by
+  have hlt : xs.length - k < xs.length := by omega
+  have hg : getitem (.arr xs) (.idx (-(k : Int))) = .ok xs[xs.length - k] := by
+    simp [getitem, Lemmas.pyListGet_neg xs k hk, hl, List.getElem?_eq_getElem hlt]; rfl
+  simp [applyOp, applyReplace, target, resolveParent, resolveParts, hg, setArr, tokenInt, Lemmas.pyIndexPos_neg xs.length k hk hl,
+    writeBack, bind, Except.bind, pure, Except.pure]
+
+/-- Beyond the array (`k > length`) both are patch errors. -/
+theorem negative_index_out_of_range (xs : List J) (k : Nat) (v : J) (hl : xs.length < k) :
+    (∃ e, applyOp (.arr xs) (.remove [.idx (-(k : Int))]) = .error e ∧ e.isPatchFamily = true) ∧
+    (∃ e, applyOp (.arr xs) (.replace [.idx (-(k : Int))] v) = .error e ∧ e.isPatchFamily = true) := by
+  have hk : 1 ≤ k := by omega
+  have hg : getitem (.arr xs) (.idx (-(k : Int))) = .error .ptrIndex := by
+    have : ¬ k ≤ xs.length := by omega
+    simp [getitem, Lemmas.pyListGet_neg xs k hk, this]; rfl
+  constructor
+  · refine ⟨.patch, ?_, rfl⟩
+    simp [applyOp, applyRemove, target, resolveParent, resolveParts, hg, bind, Except.bind, pure, Except.pure]; rfl
+  · refine ⟨.patch, ?_, rfl⟩
+    simp [applyOp, applyReplace, target, resolveParent, resolveParts, hg, bind, Except.bind, pure, Except.pure]; rfl
 
 /-! ### Non-vacuity -/
 
